@@ -325,6 +325,20 @@ CORPUS = [
     ("ok-custom-operations", "query Q { animal { name } }", CUSTOM),
     ("ok-op-named-like-unwritten-custom-file", "query customFields { s }", {}),
     ("ok-same-class-name-in-two-modules", "query Foo { animal { name } } query FooAnimal { s }", {}),
+    # directed shapes of seeded changes that were once missed (must generate and load)
+    ("ok-last-operation-only-enum", "query First { s } query Last($c: Color) { dogs(c: $c) { name } }",
+     {"include_all_enums": False, "include_all_inputs": False}),
+    ("ok-last-operation-only-input", "query First { s } query Last($u: UnusedIn) { byUnused(u: $u) }",
+     {"include_all_enums": False, "include_all_inputs": False}),
+    ("ok-conditional-typename-abstract", "query Q($t: Boolean!, $s: Boolean!) { animal { __typename @include(if: $t) "
+     "... on Dog { bark } ... on Cat { name } } node(id: \"1\") { ... @skip(if: $s) { __typename } id ... on Dog { bark } } "
+     "dogs { __typename @skip(if: $s) name } }", {}),
+    ("ok-dependent-fragment-own-imports", "query UsesG { items { ...DepG } } query Unpacks($c: Boolean!) { item { name "
+     "...DepF @include(if: $c) } } fragment DepG on Item { name ...DepF } fragment DepF on Item "
+     "@mixin(from: \"mixins_impl\", import: \"MixinA\") { id sort at parent @mixin(from: \"mixins_impl\", import: \"MixinB\") { id } }",
+     {"include_all_enums": False, "scalars": {"DateTime": {"type": "datetime.datetime"}}}, S.DEP_SDL, "mixins"),
+    ("ok-one-character-sunder-enum-values", "query Q($g: Grade = _A_) { grade(g: $g) }", {},
+     "enum Grade { _A_ _1_ _x_ OK } input GI { g: Grade = _A_ gs: [Grade!] = [_1_, OK] } type Query { grade(g: Grade = _1_, i: GI): Grade }"),
     ("fixed-F34", "query Q { s }", CUSTOM, "type Query { class: ID! from(x: Int): Int s: String }"),
     ("fixed-F33", "fragment F0 on Person { age } fragment F1 on Person { boss { ...F0 } } "
             "fragment F3 on Person { boss { boss { ...F1 } } } query Q { people { ...F0 } }", {},
@@ -342,11 +356,14 @@ CORPUS = [
 
 
 def corpus_cases() -> list:
+    from ..gen.frag_scen import MIXINS_PY as S_MIXINS
+
     out = []
     for i, entry in enumerate(CORPUS):
         name, q, cfg = entry[:3]
         sc = scenario.Scenario(seed=-1 - i, sdl=entry[3] if len(entry) > 3 else CORPUS_SDL, queries=q + "\n",
                                config=dict(cfg), features=("corpus",),
+                               files=({"mixins_impl.py": S_MIXINS} if len(entry) > 4 else {}),
                                notes={"corpus": name, "pinned": sorted(cfg)})
         out.append(Case0(sc, "corpus"))
     return out
@@ -372,7 +389,9 @@ def build_cases(ctx) -> list:
         "quote_literal": 4 if not T else 20, "escaped_literal": 8 if not T else 40, "self_variable": 4 if not T else 20,
         "local_name_variables": 6 if not T else 30, "dup_files": 10 if not T else 50,
         "unchecked_files": 6 if not T else 24, "custom_only": 4 if not T else 16, "custom_base": 4 if not T else 16,
-        "frag_graphs": 24 if not T else 160, "references": 16 if not T else 100, "enum_reserved": 6 if not T else 30,
+        "frag_graphs": 24 if not T else 160, "references": 16 if not T else 100, "enum_reserved": 8 if not T else 40,
+        "exclusive_types": 16 if not T else 100, "conditional_typename": 10 if not T else 60,
+        "dependent_fragments": 12 if not T else 60,
     }
     cases = []
     depth = 3 if not T else 4
@@ -403,13 +422,14 @@ def build_cases(ctx) -> list:
     for stream, n in counts.items():
         made = 0
         tries = 0
-        if stream not in ("frag_graphs", "references", "enum_reserved"):
+        if stream not in ("frag_graphs", "references", "enum_reserved", "dependent_fragments"):
             prefetch(k + 1, n + 3, (stream,) if stream in ("weird_names", "untyped_inline", "foreign_cond") else ())
         while made < n and tries < 4 * n + 8:
             tries += 1
             k += 1
-            if stream in ("frag_graphs", "references", "enum_reserved"):
+            if stream in ("frag_graphs", "references", "enum_reserved", "dependent_fragments"):
                 sc = (S.frag_graphs(base + k, rng) if stream == "frag_graphs"
+                      else S.dependent_fragments(base + k, rng) if stream == "dependent_fragments"
                       else S.references(base + k, rng, reserved=(stream == "enum_reserved")))
                 if sc is not None:
                     cases.append((sc, stream))
@@ -420,7 +440,8 @@ def build_cases(ctx) -> list:
             if sc is None:
                 continue
             if stream in ("subscriptions", "anonymous", "colliding_ops", "bad_mixin", "good_mixin", "quote_literal",
-                          "escaped_literal", "self_variable", "local_name_variables", "dup_files", "unchecked_files"):
+                          "escaped_literal", "self_variable", "local_name_variables", "dup_files", "unchecked_files",
+                          "exclusive_types", "conditional_typename"):
                 sc = getattr(S, stream)(sc, rng)
                 if sc is None:
                     continue
